@@ -2,6 +2,7 @@ import Logrange.Proofs.Where
 import Logrange.Proofs.FIter
 import Logrange.Proofs.WhereParse
 import Logrange.Proofs.PathMatch
+import Logrange.Proofs.PathMatchErr
 import Logrange.Generated.C05
 /-!
 # C05 — WHERE filtering equals the reference meaning of the expression
@@ -263,6 +264,35 @@ theorem like_probe_sound_noStar (p n : Bytes) (h : noStar p = true) (hp : patter
   | some b => rfl
   | none => exact absurd hw ((pathMatch_malformed_noStar p n h).mp hn)
 
+
+open Logrange.PathSpec in
+/-- **`ErrBadPattern` is decided by the pattern alone — every pattern, with `*`, classes, escapes, any bytes, every
+name.** Whether `path.Match` reports a malformed pattern equals the algorithm's own syntax check of the pattern's chunks
+(`validateRest`), in which the name does not occur. -/
+theorem pathMatch_malformed_iff_syntax (p n : Bytes) :
+    PathMatch.pathMatch p n = none ↔ PathMatch.validateRest (p.length + 1) p = false := by
+  have h := pathMatch_isSome p n
+  cases hm : PathMatch.pathMatch p n with
+  | none => rw [hm] at h; simp only [Option.isSome_none] at h; simp [← h]
+  | some b => rw [hm] at h; simp only [Option.isSome_some] at h; simp [← h]
+
+open Logrange.PathSpec in
+/-- hence the error does not depend on the name -/
+theorem pathMatch_error_name_independent (p n n' : Bytes) :
+    PathMatch.pathMatch p n = none ↔ PathMatch.pathMatch p n' = none := by
+  rw [pathMatch_malformed_iff_syntax p n, pathMatch_malformed_iff_syntax p n']
+
+/-- **The builder's LIKE pre-test is sound for every pattern**: a pattern accepted on the probe name `abc` never makes
+`path.Match` fail on any subject — so an accepted `x LIKE p` is evaluable on every event (its `res, _ :=` never drops an
+error) and `NOT (x LIKE p)` is never true because of an unevaluable pattern. -/
+theorem like_probe_sound (p n : Bytes) (hp : patternOk p = true) : (PathMatch.pathMatch p n).isSome = true := by
+  unfold patternOk at hp
+  cases hn : PathMatch.pathMatch p n with
+  | some b => rfl
+  | none =>
+    rw [(pathMatch_error_name_independent p n sProbe).mp hn] at hp
+    cases hp
+
 open Logrange.PathSpec in
 /-- **Why the theorem stops at `*`.** With `*` the implementation commits to the leftmost position where the next
 chunk matches, and it tries positions byte by byte. On `*?*\xAC` against `€` (E2 82 AC) the specification lets `*` take
@@ -333,5 +363,9 @@ example : atomOk (false, cA) = true ∧ atomOk (false, cB) = true ∧ atomOk (tr
 example : ∃ e, Lql.dExpr 40 (Lql.toksCond cA ++ Lql.tAND :: (Lql.toksCond cB ++ Lql.tOR :: Lql.tNOT :: (Lql.toksCond cC ++ Lql.tAND :: Lql.toksCond cD))) = some (e, [])
     ∧ (buildWhere env0 (some (trExpr e))).toBool = true :=
   ⟨_, parse_or_and_not cA cB cC cD 40 (by decide) (by decide) (by decide) (by decide) (by decide), by decide⟩
+
+/-- `a*[` is malformed for every name although its first chunk matches; `*[a-c]x*` is accepted by the probe -/
+example : PathMatch.pathMatch [97, 42, 91] [97] = none ∧ PathMatch.pathMatch [97, 42, 91] [98] = none ∧
+    patternOk [42, 91, 97, 45, 99, 93, 120, 42] = true := by decide
 
 end Logrange.Props.C05
